@@ -40,8 +40,67 @@ pub(crate) fn n_files<T: Types>(w: &FlushWorker<T>) -> usize {
     w.files.len()
 }
 
+/// script mode: file handles the script's AppendFile steps refer to
+pub(crate) static mut SCRIPT_FILES: [Option<Arc<File>>; 4] = [None, None, None, None];
+
+/// Build the i-th scripted request (see ghost_chan::script). Everything that
+/// steers control flow (variant, data length, sync flag, callback presence) is
+/// a constant at this point.
+fn build_scripted<T: Types>(i: usize) -> Option<SeqRequest<T>> {
+    use crate::kani_support::ghost_chan::script;
+    use crate::kani_support::ghost_fs as gfs;
+    use crate::kani_support::ktypes::GhostCb;
+    use crate::raft_log::wal::flush_request::WriteRequest;
+    // scripts exist only for instantiations whose callback type is GhostCb
+    if core::any::TypeId::of::<T::Callback>() != core::any::TypeId::of::<GhostCb>() {
+        return None;
+    }
+    let st = script::step(i);
+    let req = match st.kind {
+        0 => {
+            let f = unsafe {
+                match &SCRIPT_FILES[st.slot as usize] {
+                    Some(f) => f.clone(),
+                    None => return None,
+                }
+            };
+            WorkerRequest::AppendFile(FileEntry::<T>::new(st.off, f, None))
+        }
+        1 => {
+            let mut paths: Vec<String> = Vec::with_capacity(2);
+            paths.push(gfs::path_of_slot(st.slot as usize));
+            if st.slot2 != 0xff {
+                paths.push(gfs::path_of_slot(st.slot2 as usize));
+            }
+            WorkerRequest::RemoveChunks { chunk_paths: paths }
+        }
+        _ => {
+            let mut data: Vec<u8> = Vec::with_capacity(2);
+            if st.d >= 1 {
+                data.push(0xAA);
+            }
+            if st.d >= 2 {
+                data.push(0xBB);
+            }
+            let callback: Option<T::Callback> = if st.cb {
+                let cb = GhostCb { id: i as u8 };
+                // same type (checked above)
+                Some(unsafe { core::mem::transmute_copy::<GhostCb, T::Callback>(&cb) })
+            } else {
+                None
+            };
+            WorkerRequest::Write(WriteRequest::<T> { upto_offset: st.off, data, sync: true, callback })
+        }
+    };
+    Some(SeqRequest { seq: (i + 1) as u64, req })
+}
+
 // ---- ghost channel item: variant tag + rebuild (see ghost_chan.rs) ----
 impl<T: Types> crate::kani_support::ghost_chan::GhostItem for SeqRequest<T> {
+    fn ghost_from_script(i: usize) -> Option<Self> {
+        build_scripted::<T>(i)
+    }
+
     fn ghost_tag(&self) -> u8 {
         match &self.req {
             WorkerRequest::AppendFile(_) => 0,
